@@ -635,6 +635,30 @@ def encoder_images(ctx):
                 f["gab"] = True
                 f["epf"] = rng.choice([0, 1, 2])
         plans.append(("patches", pl.plan_line(img, frames)))
+    # upsampled frames (2x / 4x / 8x, colour and extra channels), alone or blended over a plain base frame,
+    # with and without restoration filters: the upsampling kernel reads a 5x5 neighbourhood of coded samples
+    for i in range(8 if ctx.quick else 100):
+        ups = rng.choice([2, 2, 4, 8])
+        w, h = rng.randint(3, 70), rng.randint(3, 50)
+        gray = rng.random() < 0.3
+        nec = rng.choice([0, 0, 1])
+        bits = rng.choice([8, 8, 10])
+        img = {"w": w, "h": h, "bits": bits, "gray": gray, "buf16": rng.random() < 0.6, "orient": rng.choice([1, 1, 4, 5]),
+               "anim": None, "ecs": [{"ty": 0, "dim_shift": 0, "bits": bits, "alpha_assoc": False} for _ in range(nec)]}
+        nch = (1 if gray else 3) + nec
+        hi = (1 << bits) - 1
+        cw, ch = -(-w // ups), -(-h // ups)
+        up = {"gshift": 1, "ups": ups, "ecups": [ups] * nec, "is_last": True, "tr": [], "pals": [], "tree": ("L", 0, 5, 0, 1), "wp": None,
+              "chans": [(cw, ch, pl.gen_pixels(rng, cw, ch, 0, hi)) for _ in range(nch)],
+              "gab": rng.random() < 0.4, "epf": rng.choice([0, 0, 1, 2])}
+        frames = [up]
+        if rng.random() < 0.5:
+            base = {"gshift": 1, "is_last": False, "save_ref": 1, "blend": {"mode": 0}, "ecblend": [{"mode": 0}] * nec, "tr": [], "pals": [],
+                    "tree": ("L", 0, 0, 0, 1), "wp": None, "chans": [(w, h, pl.gen_pixels(rng, w, h, 0, hi)) for _ in range(nch)]}
+            up["blend"] = {"mode": rng.choice([1, 2] if nec else [1]), "alpha": 0, "clamp": False, "source": 1}
+            up["ecblend"] = [{"mode": 1, "alpha": 0, "source": 1}] * nec
+            frames = [base, up]
+        plans.append(("upsampled", pl.plan_line(img, frames)))
     out = []
     for k, (kind, line, cs) in enumerate(fl.encode(plans)):
         ctx.count("encoder-images:" + kind)
